@@ -8,6 +8,7 @@ package main
 
 import (
 	"fmt"
+	"os"
 	"go/token"
 	"go/types"
 
@@ -145,6 +146,9 @@ func (p *Path) decodeInto(ts []*Term, out Value, fr *frame, pos token.Pos) (cons
 		return len(tk.bytes), IfaceVal{}
 	}
 	// hostile / foreign bytes
+	if os.Getenv("SYMGO_TRACE") != "" {
+		fmt.Fprintf(os.Stderr, "TRACE decode miss: target=%v nbytes=%d first=%v tokens=%d at %s\n", pt.Elem(), len(ts), ts[0], len(p.toks), p.posStr(pos))
+	}
 	if !p.decodeArbOff && p.choose(2) == 1 {
 		p.hostile("decode")
 		storeInto(ptr, p.arbitrary(pt.Elem(), 0))
